@@ -60,7 +60,7 @@ def RelE (t t' : Bool) : Except PyErr Res → Except PyErr Res → Prop
   | .error e, .error e' => e = e'
   | _, _ => False
 
-def ActRel (t t' : Bool) : Act → Act → Prop
+def FlagActRel (t t' : Bool) : Act → Act → Prop
   | .emit r s, .emit r' s' => CoreEq t t' r r' ∧ s = s'
   | .descend, .descend => True
   | _, _ => False
@@ -88,7 +88,7 @@ theorem classifyItem_core (cfg : Cfg) (p pne pdt : Path) (sa oa x y : Val) :
       itemCore cfg.fl (transformAt cfg p x) (transformAt cfg p y) pne pdt sa oa x y := rfl
 
 theorem itemCore_flags (fl fl' : Flags) (sv ov : Val) (p0 : Path) (seg : PSeg) (sa oa x y : Val) :
-    ActRel fl.types fl'.types
+    FlagActRel fl.types fl'.types
       (itemCore fl sv ov (p0 ++ [seg]) (p0 ++ [stripSeg seg]) sa oa x y)
       (itemCore fl' sv ov (p0 ++ [seg]) (p0 ++ [stripSeg seg]) sa oa x y) := by
   unfold itemCore
@@ -109,7 +109,7 @@ theorem itemCore_flags (fl fl' : Flags) (sv ov : Val) (p0 : Path) (seg : PSeg) (
       exact ⟨coreEq_of_lists rfl (by simp [Res.same]) (by simp [Res.clash, stripLast_snoc]) rfl rfl, rfl⟩
 
 theorem classifyItem_flags (cfg : Cfg) (fl' : Flags) (p p0 : Path) (seg : PSeg) (sa oa x y : Val) :
-    ActRel cfg.fl.types fl'.types
+    FlagActRel cfg.fl.types fl'.types
       (classifyItem cfg p (p0 ++ [seg]) (p0 ++ [stripSeg seg]) sa oa x y)
       (classifyItem (cfg.withFlags fl') p (p0 ++ [seg]) (p0 ++ [stripSeg seg]) sa oa x y) := by
   rw [classifyItem_core, classifyItem_core]
@@ -134,7 +134,7 @@ theorem classifyEntry_core (cfg : Cfg) (full : Path) (x y : Val) :
       entryCore cfg.fl (excluded cfg full) (onlyOk cfg full) (transformAt cfg full x) (transformAt cfg full y) full x y := rfl
 
 theorem entryCore_flags (fl fl' : Flags) (ex on : Bool) (sv ov : Val) (p0 : Path) (k : Str) (x y : Val) :
-    ActRel fl.types fl'.types
+    FlagActRel fl.types fl'.types
       (entryCore fl ex on sv ov (p0 ++ [.key k]) x y) (entryCore fl' ex on sv ov (p0 ++ [.key k]) x y) := by
   unfold entryCore
   cases ex
@@ -159,7 +159,7 @@ theorem entryCore_flags (fl fl' : Flags) (ex on : Bool) (sv ov : Val) (p0 : Path
     cases fl.types <;> cases fl'.types <;> exact ⟨coreEq_of_lists rfl rfl rfl rfl rfl, rfl⟩
 
 theorem classifyEntry_flags (cfg : Cfg) (fl' : Flags) (p0 : Path) (k : Str) (x y : Val) :
-    ActRel cfg.fl.types fl'.types
+    FlagActRel cfg.fl.types fl'.types
       (classifyEntry cfg (p0 ++ [.key k]) x y) (classifyEntry (cfg.withFlags fl') (p0 ++ [.key k]) x y) := by
   rw [classifyEntry_core, classifyEntry_core]
   exact entryCore_flags cfg.fl fl' _ _ _ _ p0 k x y
